@@ -839,15 +839,19 @@ func R08(group string) Rule {
 			}
 			n := 0
 			var add ssa.Instruction
-			for _, ci := range core.AllCalls(fn) {
-				if isStoreCall(ci, "Get", "Add") {
-					n++
-					if isStoreCall(ci, "Add") {
-						add = ci.Instr
-					}
-					c.Check(bound(ci.Instr.Block()), "R08", fmt.Sprintf("finishCompose/Store.%s/source-bound", ci.Method.Name()), ci.Instr.Pos(),
-						"dominated by len(sources) ≤ 32", "Store."+ci.Method.Name()+" is reached without the 32-source bound having been checked")
+			// finishCompose together with the phase helpers it is split into
+			cscope := P.Scope(fn, func(f *ssa.Function) bool {
+				return core.PkgPathOf(f) != core.PkgGcsemu || core.FuncName(f) == "validateConds" || core.FuncName(f) == "fmtErrorfCode"
+			})
+			cwithin := setOf(cscope)
+			for _, ci := range core.CallsIn(cscope, func(ci *core.CallInfo) bool { return isStoreCall(ci, "Get", "Add") }) {
+				n++
+				if isStoreCall(ci, "Add") {
+					add = ci.Instr
 				}
+				okB := P.InAllContexts(ci.Instr, nil, cwithin, func(at ssa.Instruction, _ []ssa.Value) bool { return bound(at.Block()) })
+				c.Check(okB, "R08", fmt.Sprintf("finishCompose/Store.%s/source-bound", ci.Method.Name()), ci.Instr.Pos(),
+					"dominated by len(sources) ≤ 32", "Store."+ci.Method.Name()+" is reached without the 32-source bound having been checked")
 			}
 			if n < 2 || add == nil {
 				c.Unknown("R08", "finishCompose/floor", fn.Pos(), "expected source reads and one Add in finishCompose")
@@ -855,14 +859,17 @@ func R08(group string) Rule {
 			}
 			// validation errors (constructed with an explicit HTTP code) all precede the Add
 			okOrder := true
-			for _, call := range callsTo(fn, core.PkgGcsemu, "fmtErrorfCode") {
-				if core.InstrReaches(add, call) {
-					okOrder = false
-				}
-			}
-			for _, call := range callsTo(fn, core.PkgGcsemu, "validateConds") {
-				if core.InstrReaches(add, call) {
-					okOrder = false
+			for _, f := range cscope {
+				for _, name := range []string{"fmtErrorfCode", "validateConds"} {
+					for _, call := range callsTo(f, core.PkgGcsemu, name) {
+						if f == add.Parent() {
+							if core.InstrReaches(add, call) {
+								okOrder = false
+							}
+						} else if P.MayFollow(fn, add, call, cwithin) {
+							okOrder = false
+						}
+					}
 				}
 			}
 			c.Check(okOrder, "R08", "finishCompose/validate-before-add", add.Pos(), "no validation failure is reachable after the destination was written", "a validation failure (4xx) can be returned after the destination has already been overwritten")
